@@ -267,6 +267,31 @@ func runC13(w *fw.Worker) {
 		}
 		w.Case("doc\x00"+ex.Src, func() *fw.Violation { w.Nontrivial(); w.Count("doc-examples", 1); return checkC13(w, o, nil) })
 	}
+	// (g) read through the evy binary: a line of input without its newline; input that ends with or without a final newline, or early
+	for _, stdin := range []string{"one\ntwo\n", "one\ntwo", "one\n", "one", "", "é 😀\n\n"} {
+		o := c13Input{Src: "a := read\nb := read\nprint \"[\"+a+\"]\" \"[\"+b+\"]\"\n", Kind: "cli-read", Want: stdin}
+		w.Case("cli-read\x00"+stdin, func() *fw.Violation { w.Nontrivial(); w.Count("cli-runs", 1); return checkC13Read(o) })
+	}
+}
+
+// checkC13Read runs a program that reads two lines through the evy binary with in.Want as its standard input.
+func checkC13Read(in c13Input) *fw.Violation {
+	stdout, stderr, code, err := runEvy([]string{"run"}, in.Src, in.Want)
+	if err != nil {
+		panic(err)
+	}
+	lines := strings.Split(in.Want, "\n") // a final newline ends the last line; missing lines read as ""
+	lines = append(lines, "", "")
+	want := "[" + lines[0] + "] [" + lines[1] + "]\n"
+	if code != 0 || stdout != want || strings.Contains(stderr, "goroutine ") {
+		sig := "cli-read"
+		if strings.Contains(stderr, "goroutine ") {
+			sig = "cli-read-host-crash"
+		}
+		return &fw.Violation{Sub: "cli-read", Signature: sig, What: "read returns a line of input without its newline; input that ends (with or without a final newline) must not crash the host", Input: in,
+			Expected: fmt.Sprintf("exit 0, stdout %q", want), Observed: fmt.Sprintf("exit %d, stdout %q, stderr %q", code, stdout, fw.Trunc(stderr, 300))}
+	}
+	return nil
 }
 
 func replayC13(sub string, in json.RawMessage) *fw.Violation {
@@ -274,6 +299,9 @@ func replayC13(sub string, in json.RawMessage) *fw.Violation {
 	json.Unmarshal(in, &d)
 	if d.Kind == "rand" || d.Kind == "doc" {
 		return checkC13(nil, d, nil)
+	}
+	if d.Kind == "cli-read" {
+		return checkC13Read(d)
 	}
 	v := replayDiffOpts(sub, d)
 	return v
